@@ -582,7 +582,7 @@ def d_taylor(ctx, rng, ds, paths, kind):
         r = refmetrics.pearson(o, f)
         s = refmetrics.pstd(f)
         compare_series(ctx, "taylor", "x = std(fcst) * corr input %d" % k, gx, [s * r], case, 1e-6, 1e-7)
-        compare_series(ctx, "taylor", "y = std(fcst) * sqrt(1-corr^2) input %d" % k, gy, [s * math.sqrt(max(0.0, 1 - r * r))], case, 1e-5, 1e-6)
+        compare_series(ctx, "taylor", "y = std(fcst) * sqrt(1-corr^2) input %d" % k, gy, [NAN if r != r else s * math.sqrt(max(0.0, 1 - r * r))], case, 1e-5, 1e-6)
     lo = fig.lines(0, "Observed")
     if lo:
         gx, gy = fig.xy(lo[0])
